@@ -399,3 +399,92 @@ Proof.
   unfold view_leader_orig, view_leader_gen. cbn. unfold eligibility. cbn.
   rewrite Z.mod_1_r. reflexivity.
 Qed.
+
+(* ---------- weighted share: exactly the residues of an interval of length = weight ---------- *)
+
+Lemma leader_indexes_increasing m : forall i, StronglySorted lt (leader_indexes i m) /\
+  Forall (fun j => (i <= j)%nat) (leader_indexes i m).
+Proof.
+  induction m as [|v m IH]; intros i; cbn [leader_indexes]; [split; constructor|].
+  destruct (IH (S i)) as [Hs Hf]. destruct (vleader v).
+  - split.
+    + constructor; [exact Hs|]. rewrite Forall_forall in *. intros j Hj. specialize (Hf j Hj). lia.
+    + constructor; [lia|]. rewrite Forall_forall in *. intros j Hj. specialize (Hf j Hj). lia.
+  - split; [exact Hs|]. rewrite Forall_forall in *. intros j Hj. specialize (Hf j Hj). lia.
+Qed.
+
+Lemma sorted_lt_nth (l : list nat) : StronglySorted lt l -> forall a b x y,
+  nth_error l a = Some x -> nth_error l b = Some y -> x = y -> a = b.
+Proof.
+  induction 1 as [|z l Hs IH Hall]; intros a b x y Ha Hb Hxy; [destruct a; discriminate|].
+  destruct a as [|a], b as [|b]; cbn [nth_error] in Ha, Hb.
+  - reflexivity.
+  - inversion Ha; subst. apply nth_error_In in Hb. rewrite Forall_forall in Hall. specialize (Hall _ Hb). lia.
+  - inversion Hb; subst. apply nth_error_In in Ha. rewrite Forall_forall in Hall. specialize (Hall _ Ha). lia.
+  - f_equal. eapply IH; eassumption.
+Qed.
+
+Lemma prefix_succ vec ls : forall j idx v, nth_error ls j = Some idx -> nth_error vec idx = Some v ->
+  prefix vec ls (S j) = prefix vec ls j + vweight v.
+Proof.
+  induction ls as [|l ls IH]; intros j idx v Hj Hv; [destruct j; discriminate|].
+  destruct j as [|j]; cbn [nth_error] in Hj.
+  - inversion Hj; subst. cbn [prefix]. rewrite Hv. destruct ls; cbn [prefix]; lia.
+  - cbn [prefix]. rewrite (IH j idx v Hj Hv). destruct (nth_error vec l); lia.
+Qed.
+
+Lemma prefix_mono vec ls : (forall idx, In idx ls -> exists v, nth_error vec idx = Some v /\ 0 < vweight v) ->
+  forall j j' idx v, (j < j')%nat -> nth_error ls j = Some idx -> nth_error vec idx = Some v ->
+  (j' <= length ls)%nat -> prefix vec ls j + vweight v <= prefix vec ls j'.
+Proof.
+  intros Hval j j' idx v Hlt Hj Hv Hlen. induction j' as [|j' IH]; [lia|].
+  destruct (Nat.eq_dec j j') as [->|Hne].
+  - rewrite (prefix_succ vec ls j' idx v Hj Hv). lia.
+  - assert (Hj' : (j' < length ls)%nat) by lia.
+    destruct (nth_error ls j') as [idx'|] eqn:E; [|apply nth_error_None in E; lia].
+    destruct (Hval idx' (nth_error_In _ _ E)) as (v' & Hv' & Hw').
+    rewrite (prefix_succ vec ls j' idx' v' E Hv'). specialize (IH ltac:(lia) ltac:(lia)). lia.
+Qed.
+
+Lemma sorted_keys_nodup vec : StronglySorted klt vec -> forall a b x y,
+  nth_error vec a = Some x -> nth_error vec b = Some y -> vkey x = vkey y -> a = b.
+Proof.
+  induction 1 as [|z l Hs IH Hall]; intros a b x y Ha Hb Hxy; [destruct a; discriminate|].
+  destruct a as [|a], b as [|b]; cbn [nth_error] in Ha, Hb.
+  - reflexivity.
+  - inversion Ha; subst. apply nth_error_In in Hb. rewrite Forall_forall in Hall. specialize (Hall _ Hb). unfold klt in Hall. lia.
+  - inversion Hb; subst. apply nth_error_In in Ha. rewrite Forall_forall in Hall. specialize (Hall _ Ha). unfold klt in Hall. lia.
+  - f_equal. eapply IH; eassumption.
+Qed.
+
+(* the j-th eligible validator is the leader exactly for the digests whose residue modulo the
+   eligible weight falls in an interval of length equal to its weight *)
+Theorem weighted_share s view h j idx v : valid_schedule s -> smode (ssel s) = Weighted -> 0 <= h ->
+  nth_error (sleaders s) j = Some idx -> nth_error (svec s) idx = Some v ->
+  (view_leader s view h = Ok (vkey v) <->
+   prefix (svec s) (sleaders s) j <= h mod sleader_weight s < prefix (svec s) (sleaders s) j + vweight v).
+Proof.
+  intros Hv Hm Hh Hj Hi.
+  destruct (view_leader_weighted s view h Hv Hm Hh) as (j' & idx' & v' & Hj' & Hi' & Hl' & Hr' & Hint').
+  assert (Hvalid : forall i, In i (sleaders s) -> exists w, nth_error (svec s) i = Some w /\ 0 < vweight w).
+  { intros i Hin. destruct (leaders_valid s Hv i Hin) as (w & Hn & _). exists w. split; [assumption|].
+    pose proof (vs_pos s Hv) as Hp. unfold wpos in Hp. rewrite Forall_forall in Hp.
+    apply Hp. eapply nth_error_In; eassumption. }
+  assert (Hinc : StronglySorted lt (sleaders s)).
+  { rewrite (vs_leaders s Hv). apply leader_indexes_increasing. }
+  split.
+  - intros Hr. rewrite Hr' in Hr. inversion Hr as [Hk].
+    assert (idx' = idx) by (eapply sorted_keys_nodup; [apply (vs_sorted s Hv)|eassumption|eassumption|exact Hk]).
+    subst idx'. assert (v' = v) by congruence. subst v'.
+    assert (j' = j) by (eapply sorted_lt_nth; [exact Hinc|eassumption|eassumption|reflexivity]).
+    subst j'. exact Hint'.
+  - intros Hint. rewrite Hr'. f_equal.
+    destruct (Nat.lt_trichotomy j j') as [Hlt|[->|Hgt]].
+    + exfalso. assert (Hl : (j' <= length (sleaders s))%nat).
+      { assert (j' < length (sleaders s))%nat by (apply nth_error_Some; congruence). lia. }
+      pose proof (prefix_mono (svec s) (sleaders s) Hvalid j j' idx v Hlt Hj Hi Hl). lia.
+    + congruence.
+    + exfalso. assert (Hl : (j <= length (sleaders s))%nat).
+      { assert (j < length (sleaders s))%nat by (apply nth_error_Some; congruence). lia. }
+      pose proof (prefix_mono (svec s) (sleaders s) Hvalid j' j idx' v' Hgt Hj' Hi' Hl). lia.
+Qed.
